@@ -16,7 +16,7 @@ RULE = ('targets of TT-rank rho=1..4 with continuous random cores, d=2..6, '
     'default), sample seeds (int and Generator), scales 1e-3..1e3; '
     'non-trivial = distinct (shape, rho, m, cap) with rho >= 2 or d >= 3')
 REQUIRED = {'wellformed': 200, 'ranks-cap': 200, 'recovery': 150,
-    'recovery-second-call': 150}
+    'recovery-second-call': 150, 'recovery-long': 30}
 ASSUMPTIONS = ['instances whose sampled blocks have sigma_rho/sigma_1 < 1e-5 '
     '(from the dense target restricted to the sample set) are not judged',
     'recovery tolerance 1e-7 max|T| ("up to rounding" for blocks of '
@@ -28,19 +28,26 @@ MAX_SKIP_FRACTION = 0.3
 
 def gen_cases(seed, tier):
     rng = np.random.default_rng([seed, 120])
-    return [{'seed': int(rng.integers(1 << 62))}
+    out = [{'seed': int(rng.integers(1 << 62))}
         for _ in range(2000 if tier == 'quick' else 40000)]
+    nl = 72 if tier == 'quick' else 1800
+    step = max(1, len(out) // nl)
+    for j in range(nl):
+        out.insert(j * step, {'seed': int(rng.integers(1 << 62)), 'long': True})
+    return out
 
 
-def block_conditioning(T, I, idx, idx_many, rt):
-    """Worst sigma_rank/sigma_1 over the sampled blocks (both unfoldings)."""
-    d = T.ndim
+def block_conditioning(T, I, idx, idx_many, rt, y=None, n=None):
+    """Worst sigma_rank/sigma_1 over the sampled blocks (both unfoldings);
+    from the dense target T or, for tensors without one, from the sample
+    values y themselves."""
+    d = T.ndim if T is not None else len(n)
     worst = 1.
     for k in range(d):
         Ik = I[idx[k]:idx[k + 1]]
-        vals = T[tuple(Ik.T)]
+        vals = T[tuple(Ik.T)] if T is not None else y[idx[k]:idx[k + 1]]
         len2 = int(idx_many[k])
-        nk = T.shape[k]
+        nk = T.shape[k] if T is not None else n[k]
         len1 = len(vals) // (nk * len2)
         B = vals.reshape(nk, len1, len2)       # index slowest, suffix fastest
         for M, rk in ((B.transpose(1, 0, 2).reshape(len1, -1), rt[k]),
@@ -52,8 +59,72 @@ def block_conditioning(T, I, idx, idx_many, rt):
     return worst
 
 
+def entries(Y, I):
+    """Entries of a TT-tensor at the rows of I (own longdouble chain)."""
+    I = np.asarray(I)
+    v = np.ones((len(I), 1), dtype=ref.LD)
+    for k, G in enumerate(Y):
+        v = np.einsum('sa,asb->sb', v, np.asarray(G, dtype=ref.LD)[:, I[:, k], :])
+    return np.asarray(v[:, 0], dtype=float)
+
+
+def run_long(case, ctx):
+    """Tensors with more than 2^63 elements (no dense reference; element
+    counts and index products do not fit int64): recovery is judged through
+    scalar products computed with separate exponents."""
+    import teneva
+    rng = np.random.default_rng(case['seed'])
+    nm, lo, hi = [(2, 64, 100), (3, 41, 60), (4, 32, 45), (2, 40, 62)][
+        int(rng.integers(4))]
+    d = int(rng.integers(lo, hi + 1))
+    n = [nm] * d
+    rho = int(rng.integers(1, min(nm, 3) + 1))
+    m = int(rng.integers(rho, nm + 1))
+    Y, rt = gen.exact_rank_tt(rng, n, rho)
+    sseed = int(rng.integers(1 << 30))
+    I, idx, idx_many = teneva.sample_tt(n, m, sseed if rng.random() < 0.7
+        else np.random.default_rng(sseed))
+    I = np.asarray(I)
+    if not ctx.check('wellformed', I.ndim == 2 and I.shape[1] == d and bool(
+            np.all(I >= 0) and np.all(I < nm)), 'sample_tt returned indices '
+            f'outside the tensor (d = {d}, n = {nm})'):
+        return
+    y = entries(Y, I)
+    cap = [1e12, rho, rho + 1, m][int(rng.integers(4))]
+    Z = teneva.svd_incomplete(I, y, idx, idx_many, 1e-10 * float(
+        np.abs(y).max()), cap)
+    why = ref.wellformed(Z, n)
+    if not ctx.check('wellformed', why is None, f'svd_incomplete (d = {d}, '
+            f'{nm}^{d} > 2^63 elements): malformed result: {why}'):
+        return
+    rz = ref.ranks_of(Z)
+    ctx.check('ranks-cap', all(q <= max(1, int(min(cap, 1e9))) for q in rz),
+        f'ranks {rz} exceed the cap {cap}')
+    cond = block_conditioning(None, I, idx, idx_many, rt, y=y, n=n)
+    if cond < 1e-5:
+        ctx.skip('recovery-long', 'ill-conditioned-sampled-block')
+        return
+    LD = ref.LD
+    a, b, c = (ref.scaled_scalar_product(Z, Z), ref.scaled_scalar_product(Z, Y),
+        ref.scaled_scalar_product(Y, Y))
+    zz = np.ldexp(LD(a[0]), int(a[1] - c[1]))
+    zy = np.ldexp(LD(b[0]), int(b[1] - c[1]))
+    rel = float(np.sqrt(abs(zz - 2 * zy + LD(c[0])) / LD(c[0])))
+    # accumulated first-order amplification d eps / cond <= 1e-9; the
+    # threshold leaves six orders of magnitude (a lost rank gives O(1))
+    ctx.check('recovery-long', rel <= 1e-3, lambda: f'||Z - T|| / ||T|| = '
+        f'{rel:.3e} for a rank-{rho} tensor of shape [{nm}]*{d} (more than '
+        f'2^{int(d * np.log2(nm))} elements) sampled for expected rank {m}',
+        cap=cap, ranks_result=rz, conditioning=cond)
+    ctx.margins['recovery-long'] = max(ctx.margins.get('recovery-long', 0.),
+        rel / 1e-3)
+    ctx.nontrivial(['long', nm, d, rho, m, cap])
+
+
 def run_case(case, ctx):
     import teneva
+    if case.get('long'):
+        return run_long(case, ctx)
     rng = np.random.default_rng(case['seed'])
     rho = int(rng.integers(1, 5))
     m = rho + int(rng.integers(0, 3))
